@@ -30,6 +30,7 @@ PCfg_AP == << E2E(FALSE, AnyId), P2P(FALSE, AnyId) >>
 
 Parent == <<2, 1>>
 Other == <<9, 1>>
+ParentSibling == <<2, 2>>     \* another port of the parent's clock: not the parent
 RespA == <<7, 1>>       \* two-step peer-delay responder
 RespB == <<8, 1>>       \* one-step peer-delay responder
 
@@ -115,6 +116,9 @@ Noise ==
      {SyncEv(k, Other) @@ [noise |-> TRUE] : k \in 1..NSync}
      \cup {FupEv(k, Other) @@ [noise |-> TRUE] : k \in 1..NSync}
      \cup {DrespEv(j, Other, Own1) @@ [noise |-> TRUE] : j \in 1..NDelay}
+     \cup {SyncEv(k, ParentSibling) @@ [noise |-> TRUE] : k \in 1..NSync}
+     \cup {FupEv(k, ParentSibling) @@ [noise |-> TRUE] : k \in 1..NSync}
+     \cup {DrespEv(j, ParentSibling, Own1) @@ [noise |-> TRUE] : j \in 1..NDelay}
      \cup {DrespEv(j, Parent, <<Own, 2>>) @@ [noise |-> TRUE] : j \in 1..NDelay}
      \cup {DrespEv(j, Parent, <<7, 1>>) @@ [noise |-> TRUE] : j \in 1..NDelay}
      \cup {[e |-> "sync", p |-> P1, src |-> Parent, seq |-> (S0 + 1) % SeqMod, two |-> FALSE, rx |-> "t2_8", c |-> "cs_8", w1 |-> "w1_8",
